@@ -178,7 +178,6 @@ Proof.
 Qed.
 
 (* ---------------------------------------------------------------- from the reader's shapes to WrapTokP's *)
-Definition ind_pos (ind : indentation) : Prop := match ind with Spaces n => (n =? 0)%N = false | FieldNameLength => True end.
 
 Lemma ind_after_pos cs : forallb etok cs = true -> forall ind, ind_pos ind -> ind_pos (ind_after ind cs).
 Proof.
@@ -221,7 +220,6 @@ Qed.
 
 (* ---------------------------------------------------------------- the content of a reformatted token paragraph / document *)
 From V.proofs Require Import Deb822EditP.
-Definition epair (e : tree) : list (str * str) := match entry_key e with Some k => [(k, entry_value e)] | None => [] end.
 
 Lemma pitems_loose l : forallb loose l = true -> pitems l = [].
 Proof.
